@@ -50,6 +50,7 @@ type scenario struct {
 	Unlimited bool
 	Default   string // name of the answer given at cost 0 ("" = 200ok): models a server that keeps failing
 	Seed      int64  // != 0: the client's jitter source (math/rand) is re-seeded with it at the start of every execution, which then run one at a time
+	Statuses  bool   // the menu is the parsable 200, the plain 503 and one plain answer per HTTP status of the status alphabet (every status is final unless the statement names it)
 	Prompt    bool   // the server answers each request the instant it arrives (requests that differ only by jitter are not merged)
 }
 
@@ -66,6 +67,20 @@ type answer struct {
 	big     bool // the body is about 100 kB: a legitimate size (an SCT's extensions alone may take 65535 octets, 87 kB in base64)
 	viaGET  bool // answer to the GET that a redirect turned the POST into: never a success
 }
+
+// statusMenu: a parsable 200, a plain 503, and every registered (and a few unregistered) status code once, each with a
+// text body (also with "Retry-After: 2", which must not turn a final status into a retried one).
+var statusMenu = func() []answer {
+	m := []answer{{name: "200ok", status: 200, body: "ok"}, {name: "503", status: 503, body: "text"}}
+	for _, st := range []int{201, 202, 203, 204, 205, 206, 207, 226, 299, 300, 304, 305, 306, 400, 401, 402, 403, 404, 405, 406, 407, 409, 410, 411, 412, 413, 414, 415, 416, 417, 418, 421, 422, 423, 424,
+		425, 426, 428, 430, 431, 451, 499, 500, 501, 502, 504, 505, 506, 507, 508, 510, 511, 520, 529, 598, 599} {
+		m = append(m, answer{name: fmt.Sprint(st), status: st, body: "text"})
+		if st == 502 || st == 504 || st == 425 || st == 409 || st == 202 {
+			m = append(m, answer{name: fmt.Sprintf("%dra2", st), status: st, ra: "2", body: "text"})
+		}
+	}
+	return m
+}()
 
 var menu = []answer{
 	{name: "200ok", status: 200, body: "ok"},
@@ -419,6 +434,8 @@ func runScenario(sc scenario) func(t *testing.T, x *gate.Exec) {
 				m := menu
 				if info.method != http.MethodPost || c == nil || c.bad >= sc.MaxBad {
 					m = menu[:1]
+				} else if sc.Statuses {
+					m = statusMenu
 				} else if sc.Default != "" {
 					m = nil
 					for _, a := range menu {
@@ -743,6 +760,8 @@ func TestCheck(t *testing.T) {
 		scenario{Name: "2 callers sharing a client, prompt server keeps answering 503", API: "json", Callers: 2, Ctx: []string{"none", "none"}, MaxBad: kb, Bound: bb - 1, Default: "503", Prompt: true, Seed: 1},
 		scenario{Name: "2 callers sharing a client, prompt server keeps answering 503, other jitter", API: "json", Callers: 2, Ctx: []string{"none", "none"}, MaxBad: kb, Bound: bb - 1, Default: "503", Prompt: true, Seed: 7},
 		scenario{Name: "3 callers sharing a LogClient, prompt server, network keeps failing", API: "logclient", Callers: 3, Ctx: []string{"none", "none", "none"}, MaxBad: kb - 2, Bound: bb - 1, Default: "neterr", Prompt: true, Seed: 3},
+		scenario{Name: "1 caller, json, every status code", API: "json", Callers: 1, Ctx: []string{"deadline10s"}, MaxBad: 3, Bound: 2, Statuses: true},
+		scenario{Name: "1 caller, LogClient.AddChain, every status code", API: "logclient", Callers: 1, Ctx: []string{"cancel"}, MaxBad: 2, Bound: 1, Statuses: true},
 		scenario{Name: "1 caller, json, server keeps answering 503 with Retry-After: 0", API: "json", Callers: 1, Ctx: []string{"cancel"}, MaxBad: kb, Bound: bb, Default: "503ra0"},
 		scenario{Name: "3 callers sharing a client, server keeps answering 429", API: "json", Callers: 3, Ctx: []string{"none", "none", "none"}, MaxBad: kb - 2, Bound: bb - 1, Default: "429"})
 	r.Rule("for each scenario, every choice vector of total deviation cost <= bound (a deviation = answering a pending request other than the canonically first, any answer other than a parsable 200 out of a 26-answer menu, a slow server, a cancellation at one of 4 instants); executions run to completion under virtual time. distinct_nontrivial = distinct observed outcomes (per-caller answer sequence and result)")
